@@ -197,7 +197,7 @@ func init() {
 	register(&Prop{
 		ID:       "C09",
 		Imports:  "From Tab Require Import Run.Glue Run.C09Run.",
-		CaseType: "(view * list (nat * nat * list N))",
+		CaseType: "c09case",
 		CaseFn:   "C09_case",
 		ModelFn:  "C09_model",
 		Rule: "tables built through the public API only (AddHeaders at any point / AddRowItems / NewRow+Add+AddRow / NewRowSizedFor / AppendNewRow then Add on the attached row / AddSeparator): every shape with header in {none,0,1,2 cells} and up to 3 rows over {separator,0,1,2 cells} with every row-building method, " +
@@ -294,13 +294,16 @@ func init() {
 			probe := tabular.New()
 			if o := capture(func() (string, error) { c09Build(sp, probe); return "", nil }); o.Kind == "panic" {
 				// the building calls themselves panicked: there is no table to render (not this property's concern)
-				return CaseOut{Coq: "(mkView 0%nat None [] [None] [None], [])", Desc: map[string]interface{}{"skipped": "build panicked: " + o.Panic},
+				return CaseOut{Coq: "(mkView 0%nat None [] [None] [None], [], None)", Desc: map[string]interface{}{"skipped": "build panicked: " + o.Panic},
 					Size: ts.Size(), Tags: []string{"skipped=build-panicked"}, Key: string(spec), Nontrivial: false}
 			}
 			var view View
+			readBack := true
 			if o := capture(func() (string, error) { view = extractView(probe); return "", nil }); o.Kind == "panic" {
 				view = ts.SpecView() // reading the table back panicked (the renders below will show why)
+				readBack = false
 			}
+			var csvOut Outcome
 			var outs []string
 			type bad struct {
 				Target string
@@ -336,6 +339,9 @@ func init() {
 					c09Build(sp, t)
 				}
 				o := capture(func() (string, error) { return tg.Render(t) })
+				if tg.Code == 0 {
+					csvOut = o
+				}
 				kind := map[string]int{"ok": 0, "err": 1, "panic": 2}[o.Kind]
 				classes += fmt.Sprint(kind)
 				s := o.Out
@@ -418,6 +424,15 @@ func init() {
 			}
 			vc := view.Coq(true)
 			tags := append(shapeTags(view), "classes="+classes[:5])
+			// the pipeline case: the same build as a history of the table machine,
+			// judged against the view read back from the real table
+			pipe := "None"
+			if readBack && !sp.TwoTables {
+				if pterm, ok := pipeCase(ts, view, csvOut); ok {
+					pipe = cqSome(pterm)
+					tags = append(tags, "pipeline-case")
+				}
+			}
 			if sp.Staged {
 				tags = append(tags, "long-lived-wrappers")
 			}
@@ -437,7 +452,7 @@ func init() {
 				}
 			}
 			return CaseOut{
-				Coq:        cqPair(vc, cqList(outs)),
+				Coq:        "(" + vc + ", " + cqList(outs) + ", " + pipe + ")",
 				Desc:       map[string]interface{}{"failing_shown": bads, "outcome_classes": classes, "sig": sig},
 				Size:       ts.Size(),
 				Tags:       tags,
